@@ -153,8 +153,70 @@ func GraphModel(t *rapid.T, o GraphOpts) *Model {
 	}
 	if o.Names && rapid.IntRange(0, 3).Draw(t, "names") == 0 {
 		renameGraphModel(t, m)
+	} else if o.Names && rapid.IntRange(0, 7).Draw(t, "positionalName") == 0 {
+		positionalName(t, m)
 	}
 	return m
+}
+
+// positionalName renames one relation b to "<a>.<N>" where relation a of the same type has, at operand position N of
+// its outermost operator, a nested operator of the kind of b's outermost operator: a legal name that reads like the
+// position of a nested operator (identity schemes built from names and positions must keep the two apart).
+func positionalName(t *rapid.T, m *Model) {
+	type cand struct{ b, name string }
+	var cands []cand
+	used := map[string]bool{}
+	for _, td := range m.Types {
+		for _, r := range td.Rels {
+			used[r.Name] = true
+		}
+	}
+	for _, td := range m.Types {
+		for _, ra := range td.Rels {
+			if !ra.Rw.IsOp() {
+				continue
+			}
+			for pos, k := range ra.Rw.Kids {
+				if !k.IsOp() || pos > 9 {
+					continue
+				}
+				for _, rb := range td.Rels {
+					if rb.Name != ra.Name && rb.Name != "p" && rb.Rw.IsOp() && rb.Rw.Kind == k.Kind {
+						cands = append(cands, cand{rb.Name, ra.Name + "." + string(rune('0'+pos))})
+					}
+				}
+			}
+		}
+	}
+	if len(cands) == 0 {
+		return
+	}
+	c := cands[rapid.IntRange(0, len(cands)-1).Draw(t, "positionalPick")]
+	if used[c.name] {
+		return
+	}
+	for i := range m.Types {
+		td := &m.Types[i]
+		for j := range td.Rels {
+			r := &td.Rels[j]
+			if r.Name == c.b {
+				r.Name = c.name
+			}
+			for k := range r.Restr {
+				if r.Restr[k].Rel == c.b {
+					r.Restr[k].Rel = c.name
+				}
+			}
+			r.Rw.Walk(func(x *Rewrite, _ int) {
+				if x.Rel == c.b {
+					x.Rel = c.name
+				}
+				if x.Tupleset == c.b {
+					x.Tupleset = c.name
+				}
+			})
+		}
+	}
 }
 
 // deepChain appends relations k00..kNN (26 <= N <= 70) to the first object type: each is one direct-userset hop, one
@@ -206,8 +268,8 @@ func deepChain(t *rapid.T, m *Model) {
 }
 
 var (
-	gAltTerm = []string{"User", "R", "u-1", "x.y", "USER", "E"}
-	gAltObj  = []string{"Repo", "Role", "R", "Doc", "DOC", "d/1", "RR", "Rx-1"}
+	gAltTerm = []string{"User", "R", "u-1", "x.y", "USER", "E", "union", "exclusion"}
+	gAltObj  = []string{"Repo", "Role", "R", "Doc", "DOC", "d/1", "RR", "Rx-1", "union", "intersection", "exclusion"}
 	gAltRel  = []string{"A", "R", "Ra", "a-b", "a.b", "B", "r/1", "Rel"}
 )
 
@@ -252,6 +314,63 @@ func renameGraphModel(t *rapid.T, m *Model) {
 			if !usedR[n] {
 				usedR[n] = true
 				rmap[rn] = n
+			}
+		}
+	}
+	// names built from other names: "<relation>.<digit>" (a position-like suffix is a legal part of a name) and pairs
+	// whose concatenations coincide ("k"+"xz" == "kx"+"z": keys glued together without a separator collide)
+	if len(relNames) >= 2 {
+		switch rapid.IntRange(0, 5).Draw(t, "derivedNames") {
+		case 0, 2:
+			a := rapid.IntRange(0, len(relNames)-1).Draw(t, "derivA")
+			b := rapid.IntRange(0, len(relNames)-1).Draw(t, "derivB")
+			base := relNames[a]
+			if n, ok := rmap[base]; ok {
+				base = n
+			}
+			digit := rapid.SampledFrom([]string{"0", "1", "2", "3"}).Draw(t, "derivDigit")
+			// prefer a coincidence that means something: relation b's outermost operator has the kind of the operator
+			// nested at operand position N of relation a's outermost operator -> b is named "<a>.<N>"
+			{
+				for _, td := range m.Types {
+					var ra, rb *Rewrite
+					for i := range td.Rels {
+						if td.Rels[i].Name == relNames[a] {
+							ra = td.Rels[i].Rw
+						}
+						if td.Rels[i].Name == relNames[b] {
+							rb = td.Rels[i].Rw
+						}
+					}
+					if ra != nil && rb != nil && ra.IsOp() && rb.IsOp() {
+						for pos, k := range ra.Kids {
+							if k.IsOp() && k.Kind == rb.Kind {
+								digit = string(rune('0' + pos))
+							}
+						}
+					}
+				}
+			}
+			n := base + "." + digit
+			if a != b && !usedR[n] {
+				usedR[n] = true
+				rmap[relNames[b]] = n
+			}
+		case 1:
+			var tn []string
+			for _, td := range m.Types {
+				tn = append(tn, td.Name)
+			}
+			if len(tn) >= 2 {
+				a := rapid.IntRange(0, len(relNames)-1).Draw(t, "glueA")
+				b := rapid.IntRange(0, len(relNames)-1).Draw(t, "glueB")
+				x := rapid.IntRange(0, len(tn)-1).Draw(t, "glueX")
+				y := rapid.IntRange(0, len(tn)-1).Draw(t, "glueY")
+				if a != b && x != y && !usedR["k"] && !usedR["kx"] && !usedT["xz"] && !usedT["z"] {
+					usedR["k"], usedR["kx"], usedT["xz"], usedT["z"] = true, true, true, true
+					rmap[relNames[a]], rmap[relNames[b]] = "k", "kx"
+					tmap[tn[x]], tmap[tn[y]] = "xz", "z"
+				}
 			}
 		}
 	}
